@@ -98,6 +98,9 @@ def make_cases(ctx):
         for kind in ops.OPS[name]['kinds'][:4]:
             cases.append({'op': name, 'kind': kind, 'm': 3, 'no_prss': len(cases) % 2 == 0, 'seed': rng.randrange(1 << 30),
                           'mix32_64bit': True})
+    for var in ops.VARIANTS['f256_arith']:       # every GF(2^8) variant also with byte-string transport of the shares
+        cases.append({'op': 'f256_arith', 'kind': 'f256', 'm': 3, 'no_prss': len(cases) % 2 == 0, 'seed': rng.randrange(1 << 30),
+                      'mix32_64bit': True, 'force': var})
     # 2. random extra cases, weighted towards m = 3
     names = sorted(ops.OPS)
     for _ in range(ctx.scale(220, 6000)):
